@@ -60,6 +60,9 @@ def _work(args):
     sigs_nt = set()
     sigs_all = set()
     viols = []
+    known = load_known()
+    known_seen = {}
+    n_known = 0
     samples = []
     digests = []
     errors = []
@@ -80,7 +83,15 @@ def _work(args):
                 sigs_nt.add(sig)
         for v in res.violations:
             if prop in v.props:
-                viols.append((i, v.to_json(), d.recorded()))
+                vj = v.to_json()
+                k = known_match(known, prop, vj)
+                if k is not None:
+                    # a listed known finding: counted, reported once, and
+                    # never allowed to crowd an unlisted violation out
+                    n_known += 1
+                    known_seen[(vj["oracle"], tuple(vj["key"]))] = k["what"]
+                else:
+                    viols.append((i, vj, d.recorded()))
         if res.samples is not None and len(samples) < 2:
             samples.append(res.samples)
         if want_digests:
@@ -89,6 +100,7 @@ def _work(args):
     return {
         "stats": stats, "sigs_nt": sigs_nt, "sigs_all": sigs_all,
         "viols": viols[:20], "nviols": len(viols), "samples": samples,
+        "known_seen": known_seen, "n_known": n_known,
         "digests": digests, "errors": errors[:5], "nerrors": len(errors),
     }
 
@@ -231,7 +243,7 @@ def replay_cli(prop, path):
 
 
 QUICK_RUNS = {
-    "C04": 1600, "C08": 1600, "C09": 1600, "C10": 2400, "C16": 1600,
+    "C04": 1200, "C08": 1000, "C09": 1400, "C10": 2400, "C16": 1400,
     "C17": 2400, "C12": 1200, "C13": 2400, "C14": 1200,
 }
 CHUNK = {"C12": 20}
@@ -273,7 +285,8 @@ def main_check(prop, tier, runs=None, budget_s=None):
         budget_s = float(os.environ.get("VERIF_BUDGET_S", "600"))
     chunk = CHUNK.get(prop, 25)
     agg = {"stats": {}, "sigs_nt": set(), "sigs_all": set(), "viols": [],
-           "nviols": 0, "samples": [], "errors": [], "nerrors": 0}
+           "nviols": 0, "samples": [], "errors": [], "nerrors": 0,
+           "known_seen": {}, "n_known": 0}
     ctx = multiprocessing.get_context("fork")
     next_i = 0
     hard_deadline = t0 + (budget_s * 3 + 600 if budget_s else 1500)
@@ -314,6 +327,8 @@ def main_check(prop, tier, runs=None, budget_s=None):
                 agg["sigs_all"] |= r["sigs_all"]
                 agg["viols"].extend(r["viols"])
                 agg["nviols"] += r["nviols"]
+                agg["known_seen"].update(r["known_seen"])
+                agg["n_known"] += r["n_known"]
                 agg["nerrors"] += r["nerrors"]
                 agg["errors"].extend(r["errors"])
                 if len(agg["samples"]) < 3:
@@ -334,22 +349,12 @@ def main_check(prop, tier, runs=None, budget_s=None):
         return 3
 
     # ---- violations: known findings, then the first unlisted one ----------
-    known = load_known()
     agg["viols"].sort(key=lambda t: (t[0], t[1]["oracle"], t[1]["key"]))
-    printed = set()
-    unlisted = None
-    n_known = 0
-    for i, v, rec in agg["viols"]:
-        k = known_match(known, prop, v)
-        if k is not None:
-            n_known += 1
-            ident = (v["oracle"], tuple(v["key"]))
-            if ident not in printed:
-                printed.add(ident)
-                print("KNOWN-FINDING: property=%s %s" % (prop, k["what"]))
-            continue
-        if unlisted is None:
-            unlisted = (i, v, rec)
+    for ident in sorted(agg["known_seen"]):
+        print("KNOWN-FINDING: property=%s %s" % (prop,
+                                                 agg["known_seen"][ident]))
+    n_known = agg["n_known"]
+    unlisted = agg["viols"][0] if agg["viols"] else None
     wall = time.monotonic() - t0
     exit_code = 0
     replay_path = None
@@ -382,11 +387,11 @@ def main_check(prop, tier, runs=None, budget_s=None):
         exit_code = 1
     wall = time.monotonic() - t0
     write_evidence(prop, tier, base_seed, agg, wall, ndet, nworkers,
-                   agg["nviols"] - n_known, n_known, eng)
+                   agg["nviols"], n_known, eng)
     print("%s: cases=%d runs=%d distinct_schedules=%d wall=%.1fs "
           "violations=%d known=%d" % (
               prop, cases, stats.get("runs", cases), len(agg["sigs_all"]),
-              wall, agg["nviols"] - n_known, n_known))
+              wall, agg["nviols"], n_known))
     return exit_code
 
 
